@@ -164,7 +164,7 @@ theorem all_get_of_lt {lang : Nat} (h : lang < numLangs) : ∃ x, Gen.all[lang]?
 
 /-- what `_analyze_file` puts into an entry are good strings: the language is a lexer name, every
 function name is a slice of the decoded text (C05 at text level) -/
-theorem analyzeRow_good {E : Env} (hE : EnvOk E) {key c : Str} {row : Row}
+theorem analyzeRow_good {E : Env} (hE : EnvBase E) {key c : Str} {row : Row}
     (h : analyzeRow E key c = .ok row) :
     Json.GoodStr row.language ∧ ∀ m ∈ row.measurements, Json.GoodStr m.unitName := by
   unfold analyzeRow at h
@@ -217,7 +217,7 @@ theorem key_good {E : Env} {pats : List Gi.Pat} {ch : List Node} (hT : TreeOk ch
 
 open Json in
 /-- **the report of a scan satisfies `GoodReport`** (hypothesis of C08) -/
-theorem report_good {E : Env} (hE : EnvOk E) {R : Run} (hR : RunOk R) {rn : Str} {ch : List Node}
+theorem report_good {E : Env} (hE : EnvBase E) {R : Run} (hR : RunOk R) {rn : Str} {ch : List Node}
     (hT : TreeOk ch) {prev : Option Str} {files : List (Str × Json.FileData)} {cb : Codebase.Codebase}
     (hf : entriesOf (scanRows E R.pats (.dir rn ch) prev) = .ok files)
     (hh : HonestFiles E files)
